@@ -25,14 +25,11 @@ type SolverCfg struct {
 func (o *Oblig) buildQuery(models bool) string {
 	var b strings.Builder
 	var body strings.Builder
-	for _, a := range o.PC {
+	for _, a := range prepareQuery(o.PC, o.Goal) {
 		body.WriteString("(assert ")
-		body.WriteString(a.S)
+		body.WriteString(a)
 		body.WriteString(")\n")
 	}
-	body.WriteString("(assert (not ")
-	body.WriteString(o.Goal.S)
-	body.WriteString("))\n")
 	text := body.String()
 	if models {
 		b.WriteString("(set-option :produce-models true)\n")
